@@ -61,6 +61,8 @@ def site_project(site, t, with_events=False, style="single", extra_defs=""):
         src.append(rg.command_src("probe", [("id", "i32")], r))
     elif site == "field":
         src.append(rg.struct_src("Holder", [("v", r)]) + rg.command_src("probe", [("h", "Holder")], "Holder"))
+    elif site == "private-field":
+        src.append(rg.struct_src("Holder", [("id", "i32"), ("priv:v", r), ("crate:w", "Option<%s>" % r)]) + rg.command_src("probe", [("h", "Holder")], "Holder"))
     elif site == "channel":
         src.append(rg.command_src("probe", [("id", "i32"), ("on_event", "Channel<%s>" % r)], "i32"))
     elif site == "channel-only":
@@ -231,7 +233,7 @@ def run(tier):
     solo = rg.struct_src("SoloInner", [("n", "i32")]) + rg.struct_src("SoloMsg", [("inner", "SoloInner"), ("items", "Vec<SoloInner>")])
     for (plabel, pf) in positions[:9]:
         t = pf(rg.N("SoloMsg"))
-        for site in SITES + ("channel-only",):
+        for site in SITES + ("channel-only", "private-field"):
             for mode in ("none", "zod"):
                 jobs.append((cli, "%s/%s/SoloMsg" % (site, plabel), site_project(site, t, extra_defs=solo), mode,
                              {"site": site, "position": plabel, "kind": "only-reachable-through-this-site", "type": t}))
